@@ -617,14 +617,24 @@ Inductive cpost :=
 | CStatus (code : Z)                 (* assert/response status_code *)
 | CBody.                             (* assert/response body: ["\"ok\""] *)
 
-Inductive ctmpl := TNone | TBad | TRef (req : bytes).
+(* what the request's templates do beyond the standard parts (URI with source variables, the dump
+   of .request in a header and in the body):
+     TNone            nothing more
+     TBad             one of the templates (URI, a header or the body) fails at execution on every
+                      tree (a field of a string), possibly after it has produced output
+     TRef r           header X-Ref: {{.request.<r>.postprocessor.tok}}   (never fails)
+     TRefBad r        header X-Ref: v={{.request.<r>.postprocessor.tok.id}}: a field of the captured
+                      value; fails exactly when <r> has run in this shot and captured tok (a string);
+                      while nothing is captured the chain runs through missing keys: "no value" *)
+Inductive ctmpl := TNone | TBad | TRef (req : bytes) | TRefBad (req : bytes).
 
 (* cq_iter: which NextIterator the request's preprocessor ends up holding.  decodeAmmo creates
    one iterator per scenario and convertConfigToRequest calls InitIterator on the request
    definition's (shared, pointer) preprocessor for every mention of the request, so the
    iterator of the LAST scenario that mentions the request wins; [build] computes it. *)
 Record creq := { cq_name : bytes; cq_id : N; cq_iter : N;
-                 cq_pre : list (bytes * pexpr); cq_post : list cpost; cq_tmpl : ctmpl }.
+                 cq_pre : list (bytes * pexpr); cq_post : list cpost; cq_tmpl : ctmpl;
+                 cq_html : bool }.                  (* templater: type: html *)
 
 (* what the scripted target answers to the k-th request it receives; None = garbage on the
    wire (transport error) *)
@@ -763,21 +773,33 @@ Definition c_pre (rq : creq) (t : ctree) (w : cworld) : cworld * option (list (b
 
 (* what the target will see of the rendered request *)
 Record crend := { rd_id : N; rd_name : bytes; rd_vars : reqmap bytes;
-                  rd_ref : option (option bytes); rd_a : option bytes }.
+                  rd_ref : option (option bytes); rd_a : option bytes;
+                  rd_html : bool }.     (* rendered by the html templater: "no value" prints as nothing *)
+
+(* the value request <r> captured as tok in this shot, as the template sees it *)
+Definition c_captured_tok (t : ctree) (r : bytes) : option bytes :=
+  match rm_get (t_req t) r with
+  | Some sv => match sv_post sv with
+               | Some m => assoc m [116;111;107]%N
+               | None => None end
+  | None => None
+  end.
+
+Definition c_novalue : bytes := [60;110;111;32;118;97;108;117;101;62]%N.   (* <no value> *)
 
 Definition c_render (rq : creq) (t : ctree) (w : cworld) : cworld * option crend :=
+  let ok ref :=
+    (w, Some {| rd_id := cq_id rq; rd_name := cq_name rq; rd_vars := t_req t;
+                rd_ref := ref; rd_a := assoc (cs_glob (t_src t)) [97]%N; rd_html := cq_html rq |}) in
   match cq_tmpl rq with
   | TBad => (w, None)
-  | tm =>
-      (w, Some {| rd_id := cq_id rq; rd_name := cq_name rq; rd_vars := t_req t;
-                  rd_ref := match tm with
-                            | TRef r => Some match rm_get (t_req t) r with
-                                             | Some sv => match sv_post sv with
-                                                          | Some m => assoc m [116;111;107]%N
-                                                          | None => None end
-                                             | None => None end
-                            | _ => None end;
-                  rd_a := assoc (cs_glob (t_src t)) [97]%N |})
+  | TNone => ok None
+  | TRef r => ok (Some (c_captured_tok t r))
+  | TRefBad r =>
+      match c_captured_tok t r with
+      | Some _ => (w, None)
+      | None => ok (Some (Some ([118;61]%N ++ (if cq_html rq then [] else c_novalue))))
+      end
   end.
 
 Definition c_exec (r : crend) (w : cworld) : cworld * option cresp :=
@@ -871,7 +893,7 @@ Fixpoint owner_go (scs : list cscen) (name : bytes) (i : nat) (cur : N) : N :=
 
 Definition set_owner (scs : list cscen) (r : creq) : creq :=
   {| cq_name := cq_name r; cq_id := cq_id r; cq_iter := owner_go scs (cq_name r) 0 0%N;
-     cq_pre := cq_pre r; cq_post := cq_post r; cq_tmpl := cq_tmpl r |}.
+     cq_pre := cq_pre r; cq_post := cq_post r; cq_tmpl := cq_tmpl r; cq_html := cq_html r |}.
 
 Definition build (reqs : list creq) (scs : list cscen) : build_res :=
   match ring_of (map (fun s => (sc_name s, sc_weight s)) scs) with
